@@ -114,6 +114,28 @@ var frontEnds = []*frontEnd{
 		p := &sen.Parser{}
 		o.tree, o.err = p.Parse(text)
 	}},
+	{"sen.Parser", "bytewise", func(text []byte, o *out) {
+		p := &sen.Parser{}
+		o.tree, o.err = p.ParseReader(&oneByte{data: text})
+	}},
+	{"oj.Tokenizer", "bytewise", func(text []byte, o *out) {
+		r := &rec{}
+		o.isEv = true
+		o.err = oj.TokenizeLoad(&oneByte{data: text}, r)
+		o.events = r.evs
+	}},
+	{"sen.Tokenizer", "whole", func(text []byte, o *out) {
+		r := &rec{}
+		o.isEv = true
+		o.err = sen.Tokenize(text, r)
+		o.events = r.evs
+	}},
+	{"sen.Tokenizer", "bytewise", func(text []byte, o *out) {
+		r := &rec{}
+		o.isEv = true
+		o.err = sen.TokenizeLoad(&oneByte{data: text}, r)
+		o.events = r.evs
+	}},
 }
 
 func feByName(name, path string) *frontEnd {
